@@ -51,7 +51,9 @@ that the pattern compiles: `o.regexAccepts pat flags = true` is part of the clas
   expressions of the class (`[last - 1]`, `[$."n" to last]`, `[@."i" * 2, 0]`; `last` may stand
   wherever an operand may, `validate` confines it to subscripts), the methods `.time()`,
   `.time_tz()`, `.timestamp()`, `.timestamp_tz()` without or with a precision `0 … 2⁶³-1`, and
-  `.decimal()`, `.decimal(p)`, `.decimal(p,s)` with signed integer literals `-(2⁶³-1) … 2⁶³-1`.
+  `.decimal()`, `.decimal(p)`, `.decimal(p,s)` with signed integer literals `-(2⁶³-1) … 2⁶³-1`;
+  an integer literal of either sign followed by accessors (`(1).abs()`, `(-2)."k"`: the printer
+  parenthesises the literal, unlike the D3 shapes).
 
 Every class also demands `validate a.root` (what `ast.New` checks: `@` only inside filters, `last`
 only inside subscripts) — a tree that fails it is not accepted by `Parse` in the first place.
@@ -81,7 +83,8 @@ sufficient for the parser's precedence climbing:
 ## Excluded, with the reason
 
 * numeric (non-integer) literals: D5 (`Props/C02`);
-* accessors on an integer literal, on a parenthesised expression or on a predicate: D3;
+* accessors on a parenthesised expression or on a predicate: D3 (accessors on an integer literal are
+  in `RT5`);
 * a sign applied to a number literal (`unary minus (integer 1)`): the parser folds it into the
   literal (`ast.NewUnaryOrNumber`), so no accepted path has this shape and its text `(-1)` reads back
   as the literal `-1` — `sign_on_literal_is_folded` below; the literal `-2⁶³` (its text is rejected:
@@ -372,10 +375,24 @@ example : Print.toString asciiOracles.isPrint ex7
     = some "$?(exists ($[last - 1,@.\"i\" * 2 to last].timestamp_tz(3).decimal(10,-2)))".toList := by
   decide +kernel
 
+/-- a literal with accessors: `strict (-2).abs() + (1).type()` is printed with the parentheses it needs -/
+def ex8 : AST :=
+  ⟨.binary .add (some (.integer (-2) (some (.method .abs none)))) (some (.integer 1 (some (.method .type none)))) none,
+   false, false⟩
+
+example : RT5 asciiOracles ex8 = true := by decide
+example : Print.toString asciiOracles.isPrint ex8 = some "strict ((-2).abs() + (1).type())".toList := by
+  decide +kernel
+
 /-! ## Outside the classes -/
 
-/-- D3: an integer literal with an accessor is not an operand of the class -/
-example : okOpd (.integer 1 (some (.method .abs none))) = false := by decide
+/-- an integer literal with an accessor is not an operand of stages 2–4, it is one of stage 5 -/
+example : okOpd (.integer 1 (some (.method .abs none))) = false ∧
+    okExpr5 asciiOracles (.integer 1 (some (.method .abs none))) = true := by decide
+
+/-- D3: a binary node with an accessor is in no class -/
+example : okExpr5 asciiOracles
+    (.binary .mul (some (.integer 2 none)) (some (.integer 3 none)) (some (.method .abs none))) = false := by decide
 
 /-- a sign on a number literal is not in the class … -/
 example : okExpr4 asciiOracles (.unary .minus (some (.integer 1 none)) none) = false := by decide
@@ -388,10 +405,6 @@ theorem sign_on_literal_is_folded :
       = some "(-1)".toList ∧
     rootIs (fun n => match n with | .integer (-1) none => true | _ => false)
       (parse asciiOracles (ascii "(-1)")) = true := by
-  decide +kernel
-
-/-- the literal `-2⁶³` cannot come out of `Parse`: its text is rejected (the magnitude is read first) -/
-example : run "-9223372036854775808" = "ERR" ∧ run "-9223372036854775807" = "(-9223372036854775807)" := by
   decide +kernel
 
 end C02b
